@@ -260,10 +260,11 @@ def ref_table(X, means, thetas):
             continue
         try:
             np.linalg.cholesky(th)
+            cond = float(np.linalg.cond(th))
         except np.linalg.LinAlgError:
             continue
         for i in range(T):
-            tab[i, k], scale[i, k] = refs.gaussian_logpdf_precision(X[i], mu, th)
+            tab[i, k], scale[i, k] = refs.gaussian_logpdf_precision(X[i], mu, th, cond)
     return tab, scale
 
 
@@ -412,15 +413,19 @@ def mon_c12(rec):
                 continue            # undefined under the unbiased estimator
             mean, cov = refs.mean_cov(d.X[members], d.biased)
             sc = float(np.max(np.abs(d.X[members]))) or 1e-300
+            spread = float(np.max(np.abs(d.X[members] - mean))) or 1e-300
+            # what a careful (mean-subtracting) estimator can lose: centred values carry ~eps*|x| error
+            tol_mean = 64 * 2.3e-16 * sc + 1e-12 * spread
+            tol_cov = 1e-10 * spread * spread + 256 * 2.3e-16 * sc * spread
             if c.stacked_data_mean is None or np.shape(c.stacked_data_mean) != mean.shape or \
-                    not np.allclose(c.stacked_data_mean, mean, rtol=0, atol=1e-10 * sc):
+                    not np.allclose(c.stacked_data_mean, mean, rtol=0, atol=tol_mean):
                 out.append((f"round {i} cluster {k}: mean is not the mean of its {len(members)} windows", None))
                 continue
             if c.empirical_covariance is None or np.shape(c.empirical_covariance) != cov.shape or \
-                    not np.allclose(c.empirical_covariance, cov, rtol=0, atol=1e-10 * sc * sc):
+                    not np.allclose(c.empirical_covariance, cov, rtol=0, atol=tol_cov):
                 rb = refs.mean_cov(d.X[members], not d.biased)[1]
                 hint = " (matches the other estimator)" if np.shape(c.empirical_covariance) == rb.shape and \
-                    np.allclose(c.empirical_covariance, rb, rtol=0, atol=1e-10 * sc * sc) else ""
+                    np.allclose(c.empirical_covariance, rb, rtol=0, atol=tol_cov) else ""
                 out.append((f"round {i} cluster {k}: covariance is not the "
                             f"{'biased' if d.biased else 'unbiased'} sample covariance of its windows{hint}", None))
                 continue
@@ -895,9 +900,10 @@ def explore(ctx, plans, chunk=16):
         finals.update(r["finals"])
         transitions += r["transitions"]
         capped = capped or r["capped"]
-    ctx.cov["states"] = ctx.cov.get("states", 0) + len(states)
-    ctx.cov["transitions"] = ctx.cov.get("transitions", 0) + transitions
-    ctx.cov["traces_validated_against_impl"] = ctx.cov.get("stats", {}).get("traces_validated", 0)
+    if any(p.get("conform") for p in plans):
+        ctx.cov["states"] = ctx.cov.get("states", 0) + len(states)
+        ctx.cov["transitions"] = ctx.cov.get("transitions", 0) + transitions
+        ctx.cov["traces_validated_against_impl"] = ctx.cov.get("stats", {}).get("traces_validated", 0)
     ctx.cov["distinct_final_labellings"] = ctx.cov.get("distinct_final_labellings", 0) + len(finals)
     if capped:
         ctx.cov["donor_subset_cap_hit"] = True
